@@ -434,12 +434,24 @@ def DrumH (rt : Nat → Option (List Tk × Nat)) (R : Int → Option (List Tk ×
     (q : Int) = (if wrap16 (k : Int) < 0 then 0 else wrap16 (k : Int)) → q < 94 →
     ∃ C n, rt q = some (C, n) ∧ R e.param = some (mk C, (n : Int))
 
+/-- the platform commands of the converter (`pl`: id ↦ the events `parse_platform_event` made) and of
+the timeline (`pf`: id ↦ the commands they denote) agree: the events lie in the linear fragment,
+fit every mode, and play exactly the commands -/
+def PlatOK (nS nM : Nat) (pf : Timeline.Platform) (pl : List (Int × Option (List MEv))) : Prop :=
+  ∀ id evs, pl.lookup id = some (some evs) →
+    (∀ ev ∈ evs, linEv ev = true) ∧ (∀ (M : Mode), ∀ ev ∈ evs, M.evOk ev = true) ∧
+    ∀ M : Mode, mk (ticks M nS nM evs) = ((pf.lookup id).getD []).map (fun p => Tk.cmd p.1 p.2)
+
+/-- the index operands that `convert_track` offsets fit their byte (C09: `index_fits_byte`) -/
+def FitsEv (nS : Nat) (ev : MEv) : Prop :=
+  (ev.type = mds_PAT → ev.arg < 256) ∧ (ev.type = mds_MTAB → ev.arg ≠ 0 → (ev.arg + nS) % 256 = ev.arg + nS)
+
 /-- what a leaf event that is not a rest pushes: events of the linear fragment that play the
 event's ticks (the off time becomes pending rest) -/
-theorem body_sem (M : Mode) (nS nM : Nat) (R : Int → Option (List Tk × Int)) (pf : Timeline.Platform) (m : List (Int × Nat))
-    (hD : DrumH M.rt R m) (e : Event) (hs : SimpleEv e)
+theorem body_sem (M : Mode) (nS nM : Nat) (R : Int → Option (List Tk × Int)) (pf : Timeline.Platform) (cx : WCtx)
+    (hD : DrumH M.rt R cx.sub) (hP : PlatOK nS nM pf cx.plat) (hMac : ∀ p ∈ cx.mac, p.2 < 32768) (e : Event) (hs : SimpleEv e)
     (ht : Timed e) (hk : e.kind = .other) (hne : e.type ≠ ev_REST) (hnd : e.type ≠ ev_DRUM_MODE) {b : List MEv}
-    (hb : Body m M.dm (tItem e e) b) :
+    (hb : Body cx M.dm (tItem e e) b) (hfb : ∀ ev ∈ b, FitsEv nS ev) :
     (∀ x ∈ b, linEv x = true) ∧ (∀ x ∈ b, M.evOk x = true) ∧
       mk (ticks M nS nM b) ++ List.replicate e.off Tk.off = itTicks R pf M.dm (item e) := by
   obtain ⟨k1, k2, k3, k4, k5⟩ := kind_other_types hk
@@ -469,6 +481,34 @@ theorem body_sem (M : Mode) (nS nM : Nat) (R : Int → Option (List Tk × Int)) 
       have h8 : mds_NOTE + n - mds_NOTE = n := by show 130 + n - 130 = n; omega
       simp [itTicks, item, t', hdm, hR, mk, ticks, evTicks, h0, h1, h2, Mode.nt, h6, h5, hrt, Codec.noteTicks, h7, h8,
         Timeline.noteTicks, h4, Timeline.maskTk]
+  | plat t hl =>
+    have t' : e.type = ev_PLATFORM := t
+    have hon : e.on = 0 := ht.2.2.1 (by rw [t']; decide) (by rw [t']; decide)
+    have hoff : e.off = 0 := ht.2.2.2.1 (by rw [t']; decide) (by rw [t']; decide) (by rw [t']; decide)
+    obtain ⟨h1, h2, h3⟩ := hP e.param b hl
+    refine ⟨h1, h2 M, ?_⟩
+    rw [h3 M]
+    simp +decide [itTicks, item, Timeline.cmdOf, t', hon, hoff]
+  | @mtab k t hp hmem =>
+    have t' : e.type = ev_PAN_ENVELOPE := t
+    have hp' : e.param ≠ 0 := hp
+    have hon : e.on = 0 := ht.2.2.1 (by rw [t']; decide) (by rw [t']; decide)
+    have hoff : e.off = 0 := ht.2.2.2.1 (by rw [t']; decide) (by rw [t']; decide) (by rw [t']; decide)
+    have hk32 : k < 32768 := hMac _ hmem
+    have ha : Mds.u16 (Mds.wrap16 ((k : Int) + 1)) = k + 1 := by simp only [Mds.u16, Mds.wrap16]; omega
+    have harg : (k + 1 : Nat) ≠ 0 := Nat.succ_ne_zero k
+    have hfit : (k + 1 + nS) % 256 = k + 1 + nS := by
+      have := (hfb ⟨mds_MTAB, Mds.u16 (Mds.wrap16 ((k : Int) + 1))⟩ (by simp)).2 rfl
+      rw [ha] at this
+      exact this harg
+    rw [ha]
+    refine ⟨fun x hx => by simp at hx; subst hx; rfl,
+      fun x hx => by simp at hx; subst hx; simp +decide [Mode.evOk], ?_⟩
+    have hne0 : ¬ (k + 1 + nS) % 256 = 0 := by
+      rw [hfit]; exact Nat.ne_of_gt (Nat.lt_of_lt_of_le (Nat.succ_pos k) (Nat.le_add_right _ _))
+    have hk1 : ¬ k + 1 = 0 := by omega
+    simp +decide [itTicks, item, Timeline.cmdOf, t', hp', hon, hoff, mk, ticks, evTicks, isCmdOp, cmdArg, Timeline.maskTk,
+      hk1, hne0]
   | @ins ty i t hty =>
     have t' : e.type = ev_INS := t
     have hon : e.on = 0 := ht.2.2.1 (by rw [t']; decide) (by rw [t']; decide)
@@ -502,11 +542,11 @@ theorem body_sem (M : Mode) (nS nM : Nat) (R : Int → Option (List Tk × Int)) 
     · rw [if_pos t2] at h
       by_cases hdm : M.dm = true
       · rw [if_pos hdm] at h; cases h
-      rw [if_neg hdm, if_pos (hs.2.2.1 t2)] at h
+      rw [if_neg hdm, if_pos (hs.1 t2)] at h
       have hdm' : M.dm = false := by simpa using hdm
       simp only [Option.some.injEq] at h
       subst h
-      obtain ⟨p0, p1⟩ := hs.2.2.1 t2
+      obtain ⟨p0, p1⟩ := hs.1 t2
       have hon1 := ht.2.2.2.2 t2
       have ha : Mds.u16 (e.on : Int) = e.on := by rw [u16_nat']; have := ht.1; omega
       rw [ha]
@@ -535,8 +575,12 @@ theorem body_sem (M : Mode) (nS nM : Nat) (R : Int → Option (List Tk × Int)) 
     rw [if_neg t2, if_neg k1, if_neg k2, if_neg k3, if_neg k4, if_neg k5] at h
     by_cases t : e.type = ev_SLUR
     · cmd_case trivial
-    rw [if_neg t, if_neg hs.1] at h
+    rw [if_neg t] at h
     have n3 := t; clear t
+    by_cases t : e.type = ev_PLATFORM
+    · rw [if_pos t] at h; cases h
+    rw [if_neg t] at h
+    have nP := t; clear t
     by_cases t : e.type = ev_TRANSPOSE_REL
     · cmd_case (u16_lo e.param)
     rw [if_neg t] at h
@@ -589,8 +633,12 @@ theorem body_sem (M : Mode) (nS nM : Nat) (R : Int → Option (List Tk × Int)) 
     rw [if_neg t] at h
     have n12 := t; clear t
     by_cases t : e.type = ev_PAN_ENVELOPE
-    · have hp := hs.2.1 t
-      rw [if_pos t, if_pos hp] at h
+    · rw [if_pos t] at h
+      have hp : e.param = 0 := by
+        by_cases hp : e.param = 0
+        · exact hp
+        · rw [if_neg hp] at h; cases h
+      rw [if_pos hp] at h
       simp only [Option.some.injEq] at h
       subst h
       have hon : e.on = 0 := ht.2.2.1 (by rw [t]; decide) (by rw [t]; decide)
@@ -602,7 +650,7 @@ theorem body_sem (M : Mode) (nS nM : Nat) (R : Int → Option (List Tk × Int)) 
     rw [if_neg t] at h
     have n13 := t; clear t
     by_cases t : e.type = ev_PITCH_ENVELOPE
-    · have hp := hs.2.2.2 t
+    · have hp := hs.2 t
       rw [if_pos t, if_pos hp] at h
       simp only [Option.some.injEq] at h
       subst h
@@ -626,16 +674,18 @@ theorem body_sem (M : Mode) (nS nM : Nat) (R : Int → Option (List Tk × Int)) 
     have hon : e.on = 0 := ht.2.2.1 t2 (by assumption)
     have hoff : e.off = 0 := ht.2.2.2.1 t2 (by assumption) hne
     refine ⟨fun x hx => by simp at hx, fun x hx => by simp at hx, ?_⟩
-    have d1 := hs.1
+    have d1 := nP
     have d2 := hnd
     simp [itTicks, item, Timeline.cmdOf, hon, hoff, mk, ticks, *]
 
-theorem body_rest {m : List (Int × Nat)} {d : Bool} {e : Event} (t : e.type = ev_REST) {b : List MEv}
-    (hb : Body m d (tItem e e) b) : b = [] := by
+theorem body_rest {cx : WCtx} {d : Bool} {e : Event} (t : e.type = ev_REST) {b : List MEv}
+    (hb : Body cx d (tItem e e) b) : b = [] := by
   cases hb with
   | jump t' _ => rw [show (tItem e e).ev.type = e.type from rfl, t] at t'; exact absurd t' (by decide)
   | ins t' _ => rw [show (tItem e e).ev.type = e.type from rfl, t] at t'; exact absurd t' (by decide)
   | dnote t' _ _ _ _ => rw [show (tItem e e).ev.type = e.type from rfl, t] at t'; exact absurd t' (by decide)
+  | plat t' _ => rw [show (tItem e e).ev.type = e.type from rfl, t] at t'; exact absurd t' (by decide)
+  | mtab t' _ _ => rw [show (tItem e e).ev.type = e.type from rfl, t] at t'; exact absurd t' (by decide)
   | det h =>
     unfold detBody at h
     simp +decide [t] at h
@@ -645,9 +695,10 @@ theorem body_rest {m : List (Int × Nat)} {d : Bool} {e : Event} (t : e.type = e
 is flushed and pushed for it lies in the linear fragment, fits the mode, and plays the pending rest
 that was flushed and the event's own ticks, up to the rest that is pending afterwards -/
 theorem leaf_sem (M : Mode) (nS nM : Nat) (R : Int → Option (List Tk × Int)) (pf : Timeline.Platform)
-    (m : List (Int × Nat)) (hD : DrumH M.rt R m) (e : Event) (hs : SimpleEv e)
+    (cx : WCtx) (hD : DrumH M.rt R cx.sub) (hP : PlatOK nS nM pf cx.plat) (hMac : ∀ p ∈ cx.mac, p.2 < 32768)
+    (e : Event) (hs : SimpleEv e)
     (ht : Timed e) (hk : e.kind = .other) (hnd : e.type ≠ ev_DRUM_MODE) (r : Nat) (hr : r < 65536) {b : List MEv}
-    (hb : Body m M.dm (tItem e e) b) :
+    (hb : Body cx M.dm (tItem e e) b) (hfb : ∀ ev ∈ b, FitsEv nS ev) :
     (∀ x ∈ (prepR r (tItem e e)).1 ++ b, linEv x = true) ∧ (∀ x ∈ (prepR r (tItem e e)).1 ++ b, M.evOk x = true) ∧
     (prepR r (tItem e e)).2 < 65536 ∧
     List.replicate r Tk.off ++ itTicks R pf M.dm (item e) =
@@ -662,7 +713,7 @@ theorem leaf_sem (M : Mode) (nS nM : Nat) (R : Int → Option (List Tk × Int)) 
       intro x hx
       rcases List.mem_append.mp hx with h | h
       · exact lin_flushL r hr x h
-      · exact (body_sem M nS nM R pf m hD e hs ht hk t hnd hb).1 x h
+      · exact (body_sem M nS nM R pf cx hD hP hMac e hs ht hk t hnd hb hfb).1 x h
   · by_cases t : e.type = ev_REST
     · rw [body_rest t hb, List.append_nil]
       by_cases hsum : r + e.off ≤ 65535
@@ -672,7 +723,7 @@ theorem leaf_sem (M : Mode) (nS nM : Nat) (R : Int → Option (List Tk × Int)) 
       intro x hx
       rcases List.mem_append.mp hx with h | h
       · exact evOk_flushL M r x h
-      · exact (body_sem M nS nM R pf m hD e hs ht hk t hnd hb).2.1 x h
+      · exact (body_sem M nS nM R pf cx hD hP hMac e hs ht hk t hnd hb hfb).2.1 x h
   · by_cases t : e.type = ev_REST
     · rw [body_rest t hb, List.append_nil]
       have hon : e.on = 0 := ht.2.2.1 (by rw [t]; decide) (by rw [t]; decide)
@@ -685,7 +736,7 @@ theorem leaf_sem (M : Mode) (nS nM : Nat) (R : Int → Option (List Tk × Int)) 
       · rw [prepR_rest_big r e t (by omega) ht.2.1]
         simp [ticks_flushL, mk_off]
     · rw [prepR_other r e t ht.2.1]
-      have := (body_sem M nS nM R pf m hD e hs ht hk t hnd hb).2.2
+      have := (body_sem M nS nM R pf cx hD hP hMac e hs ht hk t hnd hb hfb).2.2
       rw [ticks_append, mk_append, ticks_flushL, mk_off, List.append_assoc, this]
 
 /-! ### brackets -/
@@ -732,20 +783,20 @@ theorem type_segno_kind {e : Event} (t : e.type = ev_SEGNO) : e.kind = .segno :=
 
 /-! ### `Emits`, taken apart -/
 
-theorem emits_nil {m : List (Int × Nat)} {d : Bool} {r r' : Nat} {g g' : Bool} {ms : List MEv} (h : Emits m d r g [] ms r' g') :
+theorem emits_nil {cx : WCtx} {d : Bool} {r r' : Nat} {g g' : Bool} {ms : List MEv} (h : Emits cx d r g [] ms r' g') :
     ms = [] ∧ r' = r ∧ g' = g := by
   cases h; exact ⟨rfl, rfl, rfl⟩
 
-theorem emits_cons {m : List (Int × Nat)} {d : Bool} {r r' : Nat} {g g' : Bool} {it : TraceItem} {its : List TraceItem}
-    {ms : List MEv} (h : Emits m d r g (it :: its) ms r' g') :
-    ∃ b ms', Body m d it b ∧ Emits m (dAfter d it) (prepR r it).2 (g || it.ev.type == ev_SEGNO) its ms' r' g' ∧
+theorem emits_cons {cx : WCtx} {d : Bool} {r r' : Nat} {g g' : Bool} {it : TraceItem} {its : List TraceItem}
+    {ms : List MEv} (h : Emits cx d r g (it :: its) ms r' g') :
+    ∃ b ms', Body cx d it b ∧ Emits cx (dAfter d it) (prepR r it).2 (g || it.ev.type == ev_SEGNO) its ms' r' g' ∧
       ms = (prepR r it).1 ++ b ++ ms' := by
   cases h with
   | cons hb he => exact ⟨_, _, hb, he, rfl⟩
 
-theorem emits_append {m : List (Int × Nat)} : ∀ (a b : List TraceItem) {d : Bool} {r r' : Nat} {g g' : Bool} {ms : List MEv},
-    Emits m d r g (a ++ b) ms r' g' →
-    ∃ ms1 r1 g1 ms2, Emits m d r g a ms1 r1 g1 ∧ Emits m (dAfterL d a) r1 g1 b ms2 r' g' ∧ ms = ms1 ++ ms2
+theorem emits_append {cx : WCtx} : ∀ (a b : List TraceItem) {d : Bool} {r r' : Nat} {g g' : Bool} {ms : List MEv},
+    Emits cx d r g (a ++ b) ms r' g' →
+    ∃ ms1 r1 g1 ms2, Emits cx d r g a ms1 r1 g1 ∧ Emits cx (dAfterL d a) r1 g1 b ms2 r' g' ∧ ms = ms1 ++ ms2
   | [], b, d, r, r', g, g', ms, h => ⟨[], r, g, ms, .nil d r g, h, rfl⟩
   | it :: a, b, d, r, r', g, g', ms, h => by
     obtain ⟨bd, ms', hb, he, rfl⟩ := emits_cons h
@@ -765,54 +816,66 @@ theorem dAfter_const {d : Bool} {e : Event} (h : e.type ≠ ev_DRUM_MODE) : dAft
   have h1 : ¬ (tItem e e).ev.type = ev_DRUM_MODE := h
   simp only [dAfter, if_neg h1]
 
-theorem body_lp {m : List (Int × Nat)} {d : Bool} {e : Event} (t : e.type = ev_LOOP_START) {b : List MEv}
-    (hb : Body m d (tItem e e) b) : b = [⟨mds_LP, 0⟩] := by
+theorem body_lp {cx : WCtx} {d : Bool} {e : Event} (t : e.type = ev_LOOP_START) {b : List MEv}
+    (hb : Body cx d (tItem e e) b) : b = [⟨mds_LP, 0⟩] := by
   cases hb with
   | jump t' _ => rw [show (tItem e e).ev.type = e.type from rfl, t] at t'; exact absurd t' (by decide)
   | ins t' _ => rw [show (tItem e e).ev.type = e.type from rfl, t] at t'; exact absurd t' (by decide)
   | dnote t' _ _ _ _ => rw [show (tItem e e).ev.type = e.type from rfl, t] at t'; exact absurd t' (by decide)
+  | plat t' _ => rw [show (tItem e e).ev.type = e.type from rfl, t] at t'; exact absurd t' (by decide)
+  | mtab t' _ _ => rw [show (tItem e e).ev.type = e.type from rfl, t] at t'; exact absurd t' (by decide)
   | det h => unfold detBody at h; simp +decide [t] at h; exact h.symm
 
-theorem body_lpb {m : List (Int × Nat)} {d : Bool} {e : Event} (t : e.type = ev_LOOP_BREAK) {b : List MEv}
-    (hb : Body m d (tItem e e) b) : b = [⟨mds_LPB, 0⟩] := by
+theorem body_lpb {cx : WCtx} {d : Bool} {e : Event} (t : e.type = ev_LOOP_BREAK) {b : List MEv}
+    (hb : Body cx d (tItem e e) b) : b = [⟨mds_LPB, 0⟩] := by
   cases hb with
   | jump t' _ => rw [show (tItem e e).ev.type = e.type from rfl, t] at t'; exact absurd t' (by decide)
   | ins t' _ => rw [show (tItem e e).ev.type = e.type from rfl, t] at t'; exact absurd t' (by decide)
   | dnote t' _ _ _ _ => rw [show (tItem e e).ev.type = e.type from rfl, t] at t'; exact absurd t' (by decide)
+  | plat t' _ => rw [show (tItem e e).ev.type = e.type from rfl, t] at t'; exact absurd t' (by decide)
+  | mtab t' _ _ => rw [show (tItem e e).ev.type = e.type from rfl, t] at t'; exact absurd t' (by decide)
   | det h => unfold detBody at h; simp +decide [t] at h; exact h.symm
 
-theorem body_lpf {m : List (Int × Nat)} {d : Bool} {e : Event} (t : e.type = ev_LOOP_END) {b : List MEv}
-    (hb : Body m d (tItem e e) b) : b = [⟨mds_LPF, Mds.u16 e.param⟩] := by
+theorem body_lpf {cx : WCtx} {d : Bool} {e : Event} (t : e.type = ev_LOOP_END) {b : List MEv}
+    (hb : Body cx d (tItem e e) b) : b = [⟨mds_LPF, Mds.u16 e.param⟩] := by
   cases hb with
   | jump t' _ => rw [show (tItem e e).ev.type = e.type from rfl, t] at t'; exact absurd t' (by decide)
   | ins t' _ => rw [show (tItem e e).ev.type = e.type from rfl, t] at t'; exact absurd t' (by decide)
   | dnote t' _ _ _ _ => rw [show (tItem e e).ev.type = e.type from rfl, t] at t'; exact absurd t' (by decide)
+  | plat t' _ => rw [show (tItem e e).ev.type = e.type from rfl, t] at t'; exact absurd t' (by decide)
+  | mtab t' _ _ => rw [show (tItem e e).ev.type = e.type from rfl, t] at t'; exact absurd t' (by decide)
   | det h => unfold detBody at h; simp +decide [t] at h; exact h.symm
 
-theorem body_segno {m : List (Int × Nat)} {d : Bool} {e : Event} (t : e.type = ev_SEGNO) {b : List MEv}
-    (hb : Body m d (tItem e e) b) : b = [⟨mds_SEGNO, 0⟩] := by
+theorem body_segno {cx : WCtx} {d : Bool} {e : Event} (t : e.type = ev_SEGNO) {b : List MEv}
+    (hb : Body cx d (tItem e e) b) : b = [⟨mds_SEGNO, 0⟩] := by
   cases hb with
   | jump t' _ => rw [show (tItem e e).ev.type = e.type from rfl, t] at t'; exact absurd t' (by decide)
   | ins t' _ => rw [show (tItem e e).ev.type = e.type from rfl, t] at t'; exact absurd t' (by decide)
   | dnote t' _ _ _ _ => rw [show (tItem e e).ev.type = e.type from rfl, t] at t'; exact absurd t' (by decide)
+  | plat t' _ => rw [show (tItem e e).ev.type = e.type from rfl, t] at t'; exact absurd t' (by decide)
+  | mtab t' _ _ => rw [show (tItem e e).ev.type = e.type from rfl, t] at t'; exact absurd t' (by decide)
   | det h => unfold detBody at h; simp +decide [t] at h; exact h.symm
 
-theorem body_jump {m : List (Int × Nat)} {d : Bool} {e : Event} (t : e.type = ev_JUMP) {b : List MEv}
-    (hb : Body m d (tItem e e) b) :
-    ∃ k : Nat, b = [⟨mds_PAT, Mds.u16 (k : Int)⟩] ∧ (subKey e.param false d, k) ∈ m := by
+theorem body_jump {cx : WCtx} {d : Bool} {e : Event} (t : e.type = ev_JUMP) {b : List MEv}
+    (hb : Body cx d (tItem e e) b) :
+    ∃ k : Nat, b = [⟨mds_PAT, Mds.u16 (k : Int)⟩] ∧ (subKey e.param false d, k) ∈ cx.sub := by
   cases hb with
   | jump _ hm => exact ⟨_, rfl, hm⟩
   | ins t' _ => rw [show (tItem e e).ev.type = e.type from rfl, t] at t'; exact absurd t' (by decide)
   | dnote t' _ _ _ _ => rw [show (tItem e e).ev.type = e.type from rfl, t] at t'; exact absurd t' (by decide)
+  | plat t' _ => rw [show (tItem e e).ev.type = e.type from rfl, t] at t'; exact absurd t' (by decide)
+  | mtab t' _ _ => rw [show (tItem e e).ev.type = e.type from rfl, t] at t'; exact absurd t' (by decide)
   | det h => unfold detBody at h; simp +decide [t] at h
 
 /-- the drum-mode switch: the `FLG` command with the drum bit -/
-theorem body_drum {m : List (Int × Nat)} {d : Bool} {e : Event} (t : e.type = ev_DRUM_MODE) {b : List MEv}
-    (hb : Body m d (tItem e e) b) : b = [⟨mds_FLG, if e.param ≠ 0 then 8 else 0⟩] := by
+theorem body_drum {cx : WCtx} {d : Bool} {e : Event} (t : e.type = ev_DRUM_MODE) {b : List MEv}
+    (hb : Body cx d (tItem e e) b) : b = [⟨mds_FLG, if e.param ≠ 0 then 8 else 0⟩] := by
   cases hb with
   | jump t' _ => rw [show (tItem e e).ev.type = e.type from rfl, t] at t'; exact absurd t' (by decide)
   | ins t' _ => rw [show (tItem e e).ev.type = e.type from rfl, t] at t'; exact absurd t' (by decide)
   | dnote t' _ _ _ _ => rw [show (tItem e e).ev.type = e.type from rfl, t] at t'; exact absurd t' (by decide)
+  | plat t' _ => rw [show (tItem e e).ev.type = e.type from rfl, t] at t'; exact absurd t' (by decide)
+  | mtab t' _ _ => rw [show (tItem e e).ev.type = e.type from rfl, t] at t'; exact absurd t' (by decide)
   | det h =>
     unfold detBody at h
     simp +decide [t] at h
@@ -892,7 +955,7 @@ theorem itemsTicks_repeat (R : Int → Option (List Tk × Int)) (pf : Timeline.P
   | succ k ih => simp [repeatItems, repeatL, itemsTicks_append, ih]
 
 section
-variable (M : Mode) (nS nM : Nat) (R : Int → Option (List Tk × Int)) (pf : Timeline.Platform) (m : List (Int × Nat))
+variable (M : Mode) (nS nM : Nat) (R : Int → Option (List Tk × Int)) (pf : Timeline.Platform) (cx : WCtx)
   (seq : List Nat) (base mj : Nat) (call : Nat → Nat → Except SErr (List Item)) (Q : Event → Prop)
 
 /-- what is known about the calls (`Q` = what is known about a call event, e.g. that its target has no
@@ -901,7 +964,7 @@ in the subroutine map under index `k`, finds through slot `k` of the pointer tab
 plays — up to masking — the ticks of `its`, and returns -/
 def CallH : Prop :=
   ∀ (d : Nat) (e : Event) (its : List Item) (k : Nat), e.kind = .jump → Q e →
-    call d (trackIdOfParam e.param) = .ok its → (subKey e.param false M.dm, k) ∈ m → Mds.u16 (k : Int) < 256 →
+    call d (trackIdOfParam e.param) = .ok its → (subKey e.param false M.dm, k) ∈ cx.sub → Mds.u16 (k : Int) < 256 →
     ∃ T, (∃ t, slotTarget seq base (Mds.u16 (k : Int) % 256) = some t ∧ SubPlays seq base mj M.dm t T) ∧
       mk T = itemsTicks R pf M.dm its
 
@@ -1037,12 +1100,13 @@ theorem or_segno_false {g : Bool} {e : Event} (h : e.kind ≠ .segno) : (g || (t
 
 set_option maxRecDepth 8192 in
 mutual
-theorem semN (hH : CallH M R pf m seq base mj call Q) (hD : DrumH M.rt R m) (n : Tree.Node) (hcl : Node.closed n)
+theorem semN (hH : CallH M R pf cx seq base mj call Q) (hD : DrumH M.rt R cx.sub) (hP : PlatOK nS nM pf cx.plat)
+    (hMac : ∀ p ∈ cx.mac, p.2 < 32768) (n : Tree.Node) (hcl : Node.closed n)
     (hev : ∀ e ∈ flattenN n, EvOK Q e)
     (d : Nat) (il : Bool) (items : List Item) (hexp : Expand.expN call d il n = .ok items)
     (r : Nat) (g : Bool) (ms : List MEv) (r' : Nat) (g' : Bool) (hr : r < 65536)
-    (hem : Emits m M.dm r g ((flattenN n).map fun e => tItem e e) ms r' g')
-    (hfit : ∀ ev ∈ ms, ev.type = mds_PAT → ev.arg < 256) :
+    (hem : Emits cx M.dm r g ((flattenN n).map fun e => tItem e e) ms r' g')
+    (hfit : ∀ ev ∈ ms, FitsEv nS ev) :
     SemOK M nS nM R pf seq base mj (isBrk n) items r ms r' ∧ r' < 65536 ∧ g' = g := by
   match n, hcl, hev, hexp, hem with
   | .ev e, hcl, hev, hexp, hem =>
@@ -1061,7 +1125,7 @@ theorem semN (hH : CallH M R pf m seq base mj call Q) (hD : DrumH M.rt R m) (n :
       simp only [Except.ok.injEq] at hx
       subst hx
       obtain ⟨k, rfl, hmem⟩ := body_jump t hb
-      have hk256 : Mds.u16 (k : Int) < 256 := hfit ⟨mds_PAT, Mds.u16 (k : Int)⟩ (by simp) rfl
+      have hk256 : Mds.u16 (k : Int) < 256 := (hfit ⟨mds_PAT, Mds.u16 (k : Int)⟩ (by simp)).1 rfl
       obtain ⟨hon, hoff⟩ := he.timeless (by rw [t]; decide) (by rw [t]; decide) (by rw [t]; decide)
       rw [prepR_timeless r e (by rw [t]; decide) hoff]
       obtain ⟨T, ⟨tg, htg, hsub⟩, hT⟩ := hH d e its k hk (he.2.2.2.2.1 hk) hits hmem hk256
@@ -1081,7 +1145,8 @@ theorem semN (hH : CallH M R pf m seq base mj call Q) (hD : DrumH M.rt R m) (n :
     · -- a leaf event
       have hx : items = [item e] := by simpa [expN, hk] using hexp.symm
       subst hx
-      obtain ⟨hl, ho, hlt, htk⟩ := leaf_sem M nS nM R pf m hD e he.1 he.2.1 hk hnd r hr hb
+      obtain ⟨hl, ho, hlt, htk⟩ := leaf_sem M nS nM R pf cx hD hP hMac e he.1 he.2.1 hk hnd r hr hb
+        (fun ev hev => hfit ev (by simp [hev]))
       exact ⟨SemOK.leaves M nS nM R pf seq base mj _ hl ho (by simpa [itemsTicks] using htk), hlt, rfl⟩
   | .brk e, hcl, hev, hexp, hem =>
     have he : EvOK Q e := hev e (by simp [flattenN])
@@ -1151,7 +1216,7 @@ theorem semN (hH : CallH M R pf m seq base mj call Q) (hD : DrumH M.rt R m) (n :
         -- no break: the body is one piece
         obtain ⟨msB, rB, gB, msE, heB, heE, rfl⟩ := emits_append _ _ he0
         rw [dAfterL_const M.dm _ hbnd] at heE
-        obtain ⟨sB, hrB, hgB⟩ := semL hH hD body hbcl hbody (d + 1) true full hfullR 0 g msB rB gB (by omega) heB
+        obtain ⟨sB, hrB, hgB⟩ := semL hH hD hP hMac body hbcl hbody (d + 1) true full hfullR 0 g msB rB gB (by omega) heB
           (fun ev hev => hfit ev (by simp [hev]))
         obtain rfl : g = gB := hgB.symm
         rw [hb] at sB
@@ -1200,7 +1265,7 @@ theorem semN (hH : CallH M R pf m seq base mj call Q) (hD : DrumH M.rt R m) (n :
         rw [hmap2] at he0
         obtain ⟨msA, rA, gA, ms1, heA, he1, rfl⟩ := emits_append _ _ he0
         rw [dAfterL_const M.dm _ hand] at he1
-        obtain ⟨sA, hrA, hgA⟩ := semL hH hD a hacl hea (d + 1) true ia hia 0 g msA rA gA (by omega) heA
+        obtain ⟨sA, hrA, hgA⟩ := semL hH hD hP hMac a hacl hea (d + 1) true ia hia 0 g msA rA gA (by omega) heA
           (fun ev hev => hfit ev (by simp [hev]))
         obtain rfl : g = gA := hgA.symm
         rw [hab] at sA
@@ -1211,7 +1276,7 @@ theorem semN (hH : CallH M R pf m seq base mj call Q) (hD : DrumH M.rt R m) (n :
         simp only at he2
         obtain ⟨msB, rB, gB, msE, heB, heE, rfl⟩ := emits_append _ _ he2
         rw [dAfterL_const M.dm _ hbnd'] at heE
-        obtain ⟨sB, hrB, hgB⟩ := semL hH hD b hbcl' heb' (d + 1) true ib hib 0 g msB rB gB (by omega) heB
+        obtain ⟨sB, hrB, hgB⟩ := semL hH hD hP hMac b hbcl' heb' (d + 1) true ib hib 0 g msB rB gB (by omega) heB
           (fun ev hev => hfit ev (by simp [hev]))
         obtain rfl : g = gB := hgB.symm
         obtain ⟨bE, msE', hbE, heE', rfl⟩ := emits_cons heE
@@ -1238,12 +1303,13 @@ decreasing_by
   all_goals (try subst_vars)
   all_goals simp [flattenN, Tree.flattenL_append, Tree.flattenL_cons]
   all_goals omega
-theorem semL (hH : CallH M R pf m seq base mj call Q) (hD : DrumH M.rt R m) (f : List Tree.Node) (hcl : closedL f)
+theorem semL (hH : CallH M R pf cx seq base mj call Q) (hD : DrumH M.rt R cx.sub) (hP : PlatOK nS nM pf cx.plat)
+    (hMac : ∀ p ∈ cx.mac, p.2 < 32768) (f : List Tree.Node) (hcl : closedL f)
     (hev : ∀ e ∈ flattenL f, EvOK Q e)
     (d : Nat) (il : Bool) (items : List Item) (hexp : Expand.expL call d il f = .ok items)
     (r : Nat) (g : Bool) (ms : List MEv) (r' : Nat) (g' : Bool) (hr : r < 65536)
-    (hem : Emits m M.dm r g ((flattenL f).map fun e => tItem e e) ms r' g')
-    (hfit : ∀ ev ∈ ms, ev.type = mds_PAT → ev.arg < 256) :
+    (hem : Emits cx M.dm r g ((flattenL f).map fun e => tItem e e) ms r' g')
+    (hfit : ∀ ev ∈ ms, FitsEv nS ev) :
     SemOK M nS nM R pf seq base mj (hasTopBreak f) items r ms r' ∧ r' < 65536 ∧ g' = g := by
   match f, hcl, hev, hexp, hem with
   | [], _, _, hexp, hem =>
@@ -1261,10 +1327,10 @@ theorem semL (hH : CallH M R pf m seq base mj call Q) (hD : DrumH M.rt R m) (f :
     have hnnd : ∀ e ∈ flattenN n, e.type ≠ ev_DRUM_MODE :=
       fun e he => (hev e (by rw [Tree.flattenL_cons]; simp [he])).2.2.2.2.2
     rw [dAfterL_const M.dm _ hnnd] at he2
-    obtain ⟨s1, hr1, hg1⟩ := semN hH hD n hcl.1 (fun e he => hev e (by rw [Tree.flattenL_cons]; simp [he])) d il x hx r g ms1 r1 g1 hr he1
+    obtain ⟨s1, hr1, hg1⟩ := semN hH hD hP hMac n hcl.1 (fun e he => hev e (by rw [Tree.flattenL_cons]; simp [he])) d il x hx r g ms1 r1 g1 hr he1
       (fun ev hev => hfit ev (by simp [hev]))
     obtain rfl : g = g1 := hg1.symm
-    obtain ⟨s2, hr2, hg2⟩ := semL hH hD ns hcl.2 (fun e he => hev e (by rw [Tree.flattenL_cons]; simp [he])) d il y hy r1 g ms2 r' g' hr1 he2
+    obtain ⟨s2, hr2, hg2⟩ := semL hH hD hP hMac ns hcl.2 (fun e he => hev e (by rw [Tree.flattenL_cons]; simp [he])) d il y hy r1 g ms2 r' g' hr1 he2
       (fun ev hev => hfit ev (by simp [hev]))
     obtain rfl : g = g' := hg2.symm
     rw [hasTopBreak_cons]
